@@ -4,7 +4,7 @@
    runtime error).  Memory safety, teardown order and exception shape are properties of the C++ run
    time; they are observed by the sanitizer-instrumented correspondence runs (see DESIGN.md). *)
 From Coq Require Import List ZArith String Ascii Bool.
-From Bloch Require Import Lang.Syntax Lang.Eval Lang.Typing Lang.OpSound Lang.Edge.
+From Bloch Require Import Lang.Soundness Lang.Syntax Lang.Eval Lang.Typing Lang.OpSound Lang.Edge.
 Import ListNotations.
 Local Open Scope Z_scope.
 
@@ -51,6 +51,15 @@ Theorem C12_operators_are_total_on_well_typed_operands :
     bin_ty o (type_of a) (type_of b) = Some t -> sound_res (binop_eval O o a b) t.
 Proof. exact @binop_sound. Qed.
 Print Assumptions C12_operators_are_total_on_well_typed_operands.
+
+(* whole programs: whatever the fuel, a class-free program accepted by the reference checker finishes, runs out of
+   fuel, or ends with a documented runtime error (or a result flagged as outside the documentation) - it never
+   reaches an operation the semantics does not define *)
+Theorem C12_an_accepted_program_never_gets_stuck :
+  forall F (O : fops F) p fuel, check_program p = true -> p_classes p = [] ->
+    forall why, snd (run O fuel p) <> Failed (RStuck why).
+Proof. exact @checked_programs_never_get_stuck. Qed.
+Print Assumptions C12_an_accepted_program_never_gets_stuck.
 
 Example ex_most_negative_long :
   binop_eval (mkF Z Z.add Z.sub Z.mul Z.quot Z.opp Z.eqb Z.ltb Z.leb (fun z => z) (fun z => z) show_Z show_Z)
